@@ -76,17 +76,33 @@ func storerCode() []byte   { return asm("600035600055", "00") }
 func reverterCode() []byte { return asm("600035600055", "60006000fd") }
 func burnerCode() []byte   { return asm(lbl("loop"), lbl("@loop"), "56") }
 
-// forwarderCode: calldata = mode (1 byte) | target (20 bytes) | payload.
+// forwarderCode: calldata = mode (1 byte) | target (20 bytes) | payload. The low nibble of the
+// mode byte says what happens after the inner call (0 stop, 1 revert, 2 burn all gas, 3 invalid
+// opcode), the high nibble how the target is called (0 CALL, 1 STATICCALL, 2 DELEGATECALL).
 func forwarderCode() []byte {
-	return asm(
+	target := []interface{}{"6001", "35", "6060", "1c"} // calldataload(1) >> 96
+	items := []interface{}{
 		"6015", "36", "03", // size-21
 		"80", "6015", "6000", "37", // calldatacopy(0, 21, size-21)
+		"600035", "60fc", "1c", // kind = calldata[0] >> 4
+		"80", "6001", "14", lbl("@static"), "57",
+		"80", "6002", "14", lbl("@delegate"), "57",
+		"50",                                 // pop kind
 		"6000", "6000", "82", "6000", "6000", // retSize retOffset argsSize argsOffset value
-		"6001", "35", "6060", "1c", // target = calldataload(1) >> 96
-		"5a", "f1", // call(gas, target, 0, 0, size-21, 0, 0)
+	}
+	items = append(items, target...)
+	items = append(items, "5a", "f1", lbl("@after"), "56") // call(gas, target, 0, 0, size-21, 0, 0)
+	items = append(items, lbl("static"), "50", "6000", "6000", "82", "6000")
+	items = append(items, target...)
+	items = append(items, "5a", "fa", lbl("@after"), "56") // staticcall(gas, target, 0, size-21, 0, 0)
+	items = append(items, lbl("delegate"), "50", "6000", "6000", "82", "6000")
+	items = append(items, target...)
+	items = append(items, "5a", "f4") // delegatecall(gas, target, 0, size-21, 0, 0)
+	items = append(items,
+		lbl("after"),
 		"6000", "55", // sstore(0, success)
-		"50",                   // pop size-21
-		"600035", "60f8", "1c", // mode = calldata[0]
+		"50",                                 // pop size-21
+		"600035", "60f8", "1c", "600f", "16", // mode = calldata[0] & 0x0f
 		"80", "6001", "14", lbl("@revert"), "57",
 		"80", "6002", "14", lbl("@loop"), "57",
 		"6003", "14", lbl("@invalid"), "57",
@@ -95,6 +111,7 @@ func forwarderCode() []byte {
 		lbl("loop"), lbl("@loop"), "56",
 		lbl("invalid"), "fe",
 	)
+	return asm(items...)
 }
 
 // CreateInitCode returns contract creation code: ok=true deploys the storer, ok=false reverts
